@@ -394,6 +394,100 @@ theorem getSlice_reverse (c : Coll) : c.getSlice none none (some (-1)) = .ok c.s
 theorem getSlice_step0 (c : Coll) (a b : Option Int) : c.getSlice a b (some 0) = .error "ERR:Value" := by
   simp [getSlice, sliceIndices]
 
+/-! ### `==` of collections (`FeatureCollection.__eq__`, `Track.__eq__`)
+
+The property text claims nothing about `==`; these are facts about the model the `list-eq` stream ties to the code.
+`listEqBy r` is `list == list` for an arbitrary member relation `r` (`x is y or x == y`); the model's `listEq` is its
+instance at `sameOrEq` (same object, or same measured class of `==`). -/
+
+/-- `list == list` for a member relation `r` -/
+def listEqBy (r : Shape → Shape → Bool) : List Shape → List Shape → Bool
+  | [], [] => true
+  | x :: xs, y :: ys => r x y && listEqBy r xs ys
+  | _, _ => false
+
+theorem listEq_eq_by : ∀ a b : List Shape, listEq a b = listEqBy sameOrEq a b
+  | [], [] => rfl
+  | [], _ :: _ => rfl
+  | _ :: _, [] => rfl
+  | x :: xs, y :: ys => by simp only [listEq, listEqBy, listEq_eq_by xs ys]
+
+/-- same length and pairwise related -/
+theorem listEqBy_iff (r : Shape → Shape → Bool) : ∀ a b : List Shape,
+    listEqBy r a b = true ↔ List.Forall₂ (fun x y => r x y = true) a b
+  | [], [] => by simp [listEqBy]
+  | [], _ :: _ => ⟨fun h => by simp [listEqBy] at h, fun h => by cases h⟩
+  | _ :: _, [] => ⟨fun h => by simp [listEqBy] at h, fun h => by cases h⟩
+  | x :: xs, y :: ys => by simp [listEqBy, listEqBy_iff r xs ys]
+
+theorem listEqBy_refl {r : Shape → Shape → Bool} (hr : ∀ x, r x x = true) : ∀ a : List Shape, listEqBy r a a = true
+  | [] => rfl
+  | x :: xs => by simp [listEqBy, hr x, listEqBy_refl hr xs]
+
+/-- a symmetric member equality makes list equality symmetric -/
+theorem listEqBy_symm {r : Shape → Shape → Bool} (hr : ∀ x y, r x y = r y x) : ∀ a b : List Shape,
+    listEqBy r a b = listEqBy r b a
+  | [], [] => rfl
+  | [], _ :: _ => rfl
+  | _ :: _, [] => rfl
+  | x :: xs, y :: ys => by simp only [listEqBy, hr x y, listEqBy_symm hr xs ys]
+
+theorem sameOrEq_refl (x : Shape) : sameOrEq x x = true := by simp [sameOrEq]
+
+/-- the member relation of the model is symmetric (object identity is; `==` of shapes is by assumption — its classes
+    are measured) -/
+theorem sameOrEq_symm (x y : Shape) : sameOrEq x y = sameOrEq y x := by
+  simp only [sameOrEq]
+  rw [Bool.eq_iff_iff]
+  simp only [Bool.or_eq_true, beq_iff_eq]
+  constructor <;> rintro (h | h) <;> simp [h]
+
+/-- `a == a` for a FeatureCollection (also when a member is not `==` to itself: the list compares by identity first) -/
+theorem eqFC_refl (a : Coll) (ha : a.tag = .fc) : a.eqFC a = true := by
+  simp [eqFC, ha, listEq_eq_by, listEqBy_refl sameOrEq_refl]
+
+/-- `a == b` and `b == a` agree for two FeatureCollections -/
+theorem eqFC_symm (a b : Coll) (ha : a.tag = .fc) (hb : b.tag = .fc) : a.eqFC b = b.eqFC a := by
+  simp [eqFC, ha, hb, listEq_eq_by, listEqBy_symm sameOrEq_symm a.shapes b.shapes]
+
+/-- what `==` of two FeatureCollections says: same length, pairwise the same object or `==` members, same order -/
+theorem eqFC_iff (a b : Coll) :
+    a.eqFC b = true ↔ b.tag = .fc ∧ List.Forall₂ (fun x y => x.id = y.id ∨ x.eqc = y.eqc) a.shapes b.shapes := by
+  simp only [eqFC, Bool.and_eq_true, beq_iff_eq, listEq_eq_by, listEqBy_iff]
+  have : (fun x y : Shape => sameOrEq x y = true) = (fun x y => x.id = y.id ∨ x.eqc = y.eqc) := by
+    funext x y
+    simp only [sameOrEq, Bool.or_eq_true, beq_iff_eq, eq_iff_iff]
+    constructor <;> rintro (h | h) <;> simp [h]
+  rw [this]
+
+/-- `==` between collections of either class: reflexive, symmetric, and never true across the classes -/
+theorem eqColl_refl (a : Coll) : eqColl a a = true := by
+  cases ha : a.tag <;> simp [eqColl, eqFC, eqTrack, ha, listEq_eq_by, listEqBy_refl sameOrEq_refl]
+
+theorem eqColl_symm (a b : Coll) : eqColl a b = eqColl b a := by
+  have h1 : (Tag.track == Tag.fc) = false := by decide
+  have h2 : (Tag.fc == Tag.track) = false := by decide
+  cases ha : a.tag <;> cases hb : b.tag <;>
+    simp [eqColl, eqFC, eqTrack, ha, hb, h1, h2, listEq_eq_by, listEqBy_symm sameOrEq_symm a.shapes b.shapes]
+
+theorem eqColl_mixed (a b : Coll) (h : a.tag ≠ b.tag) : eqColl a b = false := by
+  have h1 : (Tag.track == Tag.fc) = false := by decide
+  have h2 : (Tag.fc == Tag.track) = false := by decide
+  cases ha : a.tag <;> cases hb : b.tag <;> simp_all [eqColl, eqFC, eqTrack]
+
+/-- non-vacuity: a twin (`==`, another object) in place of a member keeps two collections equal, another order or an
+    unequal member does not, a Track over the same members is never equal, and a member that is not `==` to itself
+    (class `-1` here stands for "its own class") still leaves `a == a` true through the identity test -/
+example :
+    let s (i e : Int) : Shape := ⟨i, e, none, [], 0, 0⟩
+    eqFC ⟨.fc, [s 0 0, s 1 1]⟩ ⟨.fc, [s 0 0, s 2 1]⟩ = true ∧
+    eqFC ⟨.fc, [s 0 0, s 1 1]⟩ ⟨.fc, [s 1 1, s 0 0]⟩ = false ∧
+    eqFC ⟨.fc, [s 0 0, s 1 1]⟩ ⟨.fc, [s 0 0, s 3 3]⟩ = false ∧
+    eqFC ⟨.fc, [s 0 0, s 1 1]⟩ ⟨.fc, [s 0 0]⟩ = false ∧
+    eqFC ⟨.fc, [s 0 0, s 1 1]⟩ ⟨.track, [s 0 0, s 1 1]⟩ = false ∧
+    eqColl ⟨.track, [s 0 0]⟩ ⟨.fc, [s 0 0]⟩ = false ∧
+    eqFC ⟨.fc, [s 5 5]⟩ ⟨.fc, [s 5 5]⟩ = true ∧ eqFC ⟨.fc, [s 5 5]⟩ ⟨.fc, [s 6 6]⟩ = false := by decide
+
 /-! ### non-vacuity -/
 
 /-- a Track receiver (chronological, with a long early interval and duplicate starts), non-trivial
